@@ -49,6 +49,25 @@ fn gen(tier: &str, seed: u64, out: &mut dyn FnMut(String)) {
     // mixed ranks for the conveniences
     for l in ["vstack i3;i1,3+1000", "vstack i3;i2,3+1000;i3+2000", "hstack i2;i3+1000;i1+2000", "hstack i2;i2,1+1000", "dstack i2;i1,2+1000;i1,2,1+2000", "dstack i2,3;i2,3,2+1000",
               "column_stack i3;i3,2+1000;i3+2000", "column_stack i3;i2+1000", "column_stack i2,2,2", "row_stack i2;i2+1000;i2+2000", "vstack -", "hstack -", "dstack -", "column_stack -", "concatenate - 0", "stack - 0"] { out(l.to_string()); }
+    // zero-size arrays (an empty axis on or off the joining axis): joining, stacking, the conveniences, splitting
+    for s in [vec![0usize], vec![2, 0], vec![0, 2], vec![0, 0], vec![2, 0, 3], vec![2, 3, 0], vec![0, 2, 2]] {
+        let nd = s.len(); let a = tag(&s);
+        for ax in 0..nd {
+            for m in 0..3usize { let mut t = s.clone(); t[ax] = m;
+                out(format!("append {a} {} {ax}", tag_off(&t, 1000))); out(format!("append {} {a} {ax}", tag_off(&t, 1000)));
+                out(format!("concatenate {a};{};{a} {ax}", tag_off(&t, 1000))); }
+            out(format!("stack {a};{a} {ax}")); out(format!("concatenate {a} {ax}"));
+            for p in 0..3 { out(format!("array_split {a} {p} {ax}")); out(format!("split {a} {p} {ax}")); if p > 0 { out(format!("split_concat {a} {p} {ax}")); } }
+            out(format!("split_axis {a} {ax}"));
+        }
+        out(format!("stack {a};{a};{a} none")); out(format!("concatenate {a};{a} none")); out(format!("append {a} {a} none"));
+        for op in ["vstack", "hstack", "dstack", "column_stack", "row_stack"] {
+            out(format!("{op} {a}")); out(format!("{op} {a};{a}")); out(format!("{op} {a};{a};{a}"));
+            let join_ax = match op { "vstack" | "row_stack" => 0, "hstack" | "column_stack" => if nd == 1 { 0 } else { 1 }, _ => 2 };
+            if join_ax < nd { let mut t = s.clone(); t[join_ax] = 2; out(format!("{op} {a};{}", tag_off(&t, 1000))); out(format!("{op} {};{a}", tag_off(&t, 1000))); }
+        }
+        for p in 0..3 { out(format!("hsplit {a} {p}")); out(format!("vsplit {a} {p}")); out(format!("dsplit {a} {p}")); }
+    }
     // random rank 5 and longer lists
     for _ in 0..(if thorough { 3000 } else { 300 }) {
         let nd = 1 + rng.below(5); let s: Vec<usize> = (0..nd).map(|_| 1 + rng.below(3)).collect(); let ax = rng.below(nd);
@@ -98,5 +117,5 @@ fn nontrivial(op: &str, args: &[&str]) -> bool {
 
 fn main() {
     harness_main(Spec { prop: "C11", gen, exec, nontrivial, hang_secs: 20,
-        rule: "every shape rank<=4 len<=3 (+ lengths 4-7): array_split / split / split-then-concatenate for EVERY axis and every part count 1..len+2 (+0, axis none, axis out of range), split_axis, hsplit/vsplit/dsplit 0..4; concatenate/append of 2-4 arrays with seeded lengths 1..3 along EVERY axis (+ off-axis mismatch, rank mismatch, flat form), stack on every axis (+none, rank, rank+1), the five conveniences on equal shapes / shapes differing along the stacking axis / off-axis mismatches / mixed ranks / empty lists; seeded random rank<=5. Tag arrays. non-trivial: >=2 parts on rank>=2, or >=2 arrays joined" });
+        rule: "every shape rank<=4 len<=3 (+ lengths 4-7): array_split / split / split-then-concatenate for EVERY axis and every part count 1..len+2 (+0, axis none, axis out of range), split_axis, hsplit/vsplit/dsplit 0..4; concatenate/append of 2-4 arrays with seeded lengths 1..3 along EVERY axis (+ off-axis mismatch, rank mismatch, flat form), stack on every axis (+none, rank, rank+1), the five conveniences on equal shapes / shapes differing along the stacking axis / off-axis mismatches / mixed ranks / empty lists; zero-size shapes ([0],[2,0],[0,2],[0,0],[2,0,3],[2,3,0],[0,2,2]): append/concatenate with partners of length 0..2 on every axis, stack, the five conveniences, every split; seeded random rank<=5. Tag arrays. non-trivial: >=2 parts on rank>=2, or >=2 arrays joined" });
 }
